@@ -331,3 +331,69 @@ def check_c20(tier, seed):
         print(f'VIOLATION property={pid} replay={rp}' + (' no-failing-input-found' if kind == 'proof' else ''))
     print(f'[{pid}] theorems={obligations} discharged={obligations if proof_ok else 0} cells={cells} failing={len(failing)} wall={wall:.1f}s')
     return 1 if violations else 0
+
+
+# ---------------------------------------------------------------------------------------------------------------
+# C17
+# ---------------------------------------------------------------------------------------------------------------
+def check_c17(tier, seed):
+    t0 = time.time()
+    pid = 'C17'
+    out = os.path.join(V.OUT, pid)
+    os.makedirs(out, exist_ok=True)
+    notes, violations = [], []
+    sys.path.insert(0, os.path.join(ROOT, 'translate'))
+    import statics
+    ok1, m1 = statics.run()
+    notes.append('statics: ' + m1)
+    bad = V.forbidden_scan()
+    pr = V.check_properties_file(pid)
+    obligations = len(pr['theorems'])
+    proof_ok = pr['ok'] and not bad and ok1
+    src = os.path.join(ROOT, 'harness', 'c17', 'threads.cpp')
+    exe = os.path.join(out, 'threads_tsan')
+    rc, o = V.sh(['clang++', '-std=c++17', '-O1', '-g', '-fsanitize=thread', '-pthread', '-I' + os.path.join(V.REPO, 'src'), src, '-o', exe], timeout=900)
+    runs = []
+    build_ok = rc == 0
+    if not build_ok:
+        notes.append('TSan workload does not build: ' + o[-1500:])
+    else:
+        nthreads, iters, reps = (8, 2000, 3) if tier == 'quick' else (16, 20000, 6)
+        for r in range(reps):
+            rc2, o2 = V.sh([exe, str(nthreads), str(iters), str(seed * 10 + r)], timeout=900)
+            runs.append((rc2, o2[-5000:]))
+    failing = [r for r in runs if r[0] != 0]
+    if failing or not build_ok:
+        replay = os.path.join(out, f'replay_{seed}.txt')
+        with open(replay, 'w') as f:
+            f.write(f'# property=C17: clang++ -std=c++17 -O1 -g -fsanitize=thread -pthread -I/repo/src {src} -o /tmp/c17 && /tmp/c17 8 2000 {seed * 10}\n')
+            f.write(failing[0][1] if failing else o[-4000:])
+        violations.append(('tsan' if failing else 'proof', replay, 'ThreadSanitizer report or wrong result' if failing else 'no-failing-input-found'))
+    if not proof_ok and not failing and build_ok:
+        replay = os.path.join(out, f'proof_broken_{seed}.txt')
+        with open(replay, 'w') as f:
+            f.write('property C17: the list of static-storage variables regenerated from the current headers contains one that is neither thread_local nor immutable\n')
+            f.write(f'(coq/Properties_C17.v, failed at {pr.get("failed_at")}); translator: {m1}; forbidden: {bad}\n\n' + pr['log'][-4000:])
+        violations.append(('proof', replay, 'no-failing-input-found'))
+    wall = time.time() - t0
+    total_iters = sum(1 for _ in runs)
+    coverage = {
+        'obligations': obligations, 'discharged': obligations if proof_ok else 0,
+        'checker_cmd': 'python3 translate/statics.py && cd coq && make -k Properties_C17.vo',
+        'trusted_base': ['Coq 8.16.1 kernel', 'translate/statics.py over clang 14 JSON AST (which variables have static or thread storage duration)',
+                         'ThreadSanitizer (clang 14) as the observer of data races in the sampled executions',
+                         'Print Assumptions: ' + '; '.join(sorted(set(pr['assumptions'])))],
+        'theorems': pr['theorems'],
+        'evaluations': len(runs), 'distinct_nontrivial': len(runs),
+        'rule': 'one evaluation = one TSan run of N threads, each executing a disjoint workload (all connection flavours, recycling, '
+                'blockers, scoped connections, moves, deferred connections with a thread-owned evaluator, immediate and evaluator-driven '
+                'bindings, rebind/reset, property moves) for the stated number of iterations with a distinct seed',
+        'samples': [{'threads': 8 if tier == 'quick' else 16, 'iterations_per_thread': 2000 if tier == 'quick' else 20000, 'output': runs[0][1].strip()[-200:] if runs else ''}],
+        'source_fingerprint': V.repo_fingerprint(), 'notes': notes,
+    }
+    V.write_evidence(pid, tier, seed, 'proof', coverage, wall, len(violations),
+                     ['the theorem is about the footprint discipline of the model; absence of any other hidden sharing in the binary is supported (AST sweep, TSan samples), not proved'])
+    for kind, rp, what in violations:
+        print(f'VIOLATION property={pid} replay={rp}' + (' no-failing-input-found' if kind == 'proof' else ''))
+    print(f'[{pid}] theorems={obligations} discharged={obligations if proof_ok else 0} tsan_runs={len(runs)} failing={len(failing)} wall={wall:.1f}s')
+    return 1 if violations else 0
